@@ -41,8 +41,9 @@ THEOREMS = [
     "Scenic.C06.evaluate_ok",
     "Scenic.C06.evaluate_total",
     "Scenic.C06.dup_name_reported",
-    "Scenic.C06.final_reported_partial",
-    "Scenic.C06.final_by_modifier_unreported_witness",
+    "Scenic.C06.final_reported",
+    "Scenic.C06.final_reported_normal",
+    "Scenic.C06.regression_final_by_modifier",
     "Scenic.C06.tie_reported",
     "Scenic.C06.missing_dep_reported",
     "Scenic.C06.cycle_reported",
@@ -101,7 +102,9 @@ ERR_PATTERNS = [
     ("cycle", re.compile(r"depends on itself")),
     ("missingDep", re.compile(r"is not specified")),
 ]
-STAGE = {"dupName": 1, "finalProp": 2, "tie": 2, "modifiedTwice": 3, "cycle": 4, "missingDep": 4}
+STAGE = {"dupName": 1, "finalProp": 2, "tie": 2, "modifiedTwice": 3, "finalPropMod": 3, "cycle": 4, "missingDep": 4}
+# the error message by which a defect of the reference is reported
+REPORTED_AS = {"finalPropMod": "finalProp"}
 
 
 # =========================================================================== descriptors
@@ -367,7 +370,9 @@ def reference(ci, specs):
         defects.add("dupName")
     normal = [s for s in specs if not s["mod"]]
     mods = [s for s in specs if s["mod"]]
-    for s in specs:      # whatever the kind of specifier: a final property may not be specified
+    # whatever the kind of specifier, a final property may not be specified: the defect belongs to the pass that
+    # looks at the specifier (normal specifiers: phase 2; modifying specifiers: phase 3, with "modified twice")
+    for s in normal:
         for p, k in s["prios"]:
             if p in finals:
                 defects.add("finalProp")
@@ -382,14 +387,19 @@ def reference(ci, specs):
             if p not in best or k < best[p][1]:
                 best[p] = ("u:" + san(s["name"]), k)
     modifier = {}
+    phase3 = set()
+    if any(p in finals for m in mods for p, _ in m["prios"]):
+        phase3.add("finalPropMod")
     for m in mods:
         for p, k in m["prios"]:
             if p not in best or k < best[p][1]:
                 best[p] = ("u:" + san(m["name"]), k)
             elif p in m["modifiable"]:
                 if san(p) in modifier:
-                    return {"modifiedTwice"}, False, None
+                    phase3.add("modifiedTwice")
                 modifier[san(p)] = "u:" + san(m["name"])
+    if phase3:
+        return phase3, False, None
     assign = {san(p): n for p, (n, _) in best.items()}
     deps = {"u:" + san(s["name"]): s["deps"] for s in specs}
     nodes = ["u:" + san(s["name"]) for s in specs]
@@ -447,20 +457,12 @@ def oracle(ctx, rec, specs, replay):
         if ctx.violation(key + tagk, what + f" [class {rec['cls']}, specifiers {[s['name'] for s in specs]}]", replay):
             found = True
 
-    finals = set(ci["finals"])
-    fin_by = [(s["name"], p, s["mod"]) for s in specs for p, _ in s["prios"] if p in finals]
-    # a final property specified by modifying specifiers only (identity of the call site: the modifying pass)
-    fin_mod_only = bool(fin_by) and all(m for _, _, m in fin_by) and defects == {"finalProp"}
     if out[0] == "crash":
         viol(f"crash:{out[1]}", f"specifier resolution raised {out[1]} (not a SpecifierError): {out[2]}")
         return found
     if out[0] == "ok":
         for k in sorted(defects, key=lambda d: (STAGE[d], d)):
-            if k == "finalProp" and fin_mod_only:
-                viol("final-specified-by-modifying-specifier",
-                     f"final property {fin_by[0][1]} is specified by the modifying specifier {fin_by[0][0]} and the object was created")
-            else:
-                viol(f"unreported:{k}", f"defect `{k}` present but the object was created")
+            viol(f"unreported:{k}", f"defect `{k}` present but the object was created")
         if rec["depviol"]:
             n, miss = rec["depviol"][0]
             viol("evaluated-before-dependency", f"specifier {n} evaluated before {miss} had a value")
@@ -503,12 +505,10 @@ def oracle(ctx, rec, specs, replay):
                 viol("spurious-error", f"no defect present but resolution failed: {out[3]}")
         else:
             first = min(STAGE[d] for d in defects)
-            if kind not in defects and fin_mod_only and STAGE.get(kind, 0) > 2:
-                viol("final-specified-by-modifying-specifier",
-                     f"final property {fin_by[0][1]} is specified by the modifying specifier {fin_by[0][0]}; not reported (a later check failed: {kind})")
-            elif kind not in defects:
+            mine = [d for d in defects if REPORTED_AS.get(d, d) == kind]
+            if not mine:
                 viol(f"wrong-error:{kind}", f"error `{out[3]}` but no such defect is present (present: {sorted(defects)})")
-            elif STAGE[kind] != first:
+            elif min(STAGE[d] for d in mine) != first:
                 viol(f"masked-error:{kind}", f"reported {kind} although {sorted(defects)} present")
     return found
 
@@ -691,6 +691,11 @@ REGRESSION_CASES = [
     # final properties: specified by a normal specifier / default depending on a final / cycle among defaults
     {"kind": "synthetic", "label": "final-normal", "defaults": [("a", [], True), ("b", ["a"], False)],
      "specs": [_sp("S0", [("a", 1)]), _sp("S1", [("b", 1)])]},
+    # 5766576b: a final property named by a modifying specifier is refused too (alone, and next to a normal specifier)
+    {"kind": "synthetic", "label": "final-modifying", "defaults": [("a", [], True), ("b", [], False)],
+     "specs": [_sp("S1", [("b", 1), ("a", 2)], mod=True, modifiable=["b"])]},
+    {"kind": "synthetic", "label": "final-modifying-after-normal", "defaults": [("a", [], True), ("b", [], False)],
+     "specs": [_sp("S0", [("b", 1)]), _sp("S1", [("b", 1), ("a", 2)], mod=True, modifiable=["b"])]},
     {"kind": "synthetic", "label": "default-cycle", "defaults": [("a", ["b"], False), ("b", ["a"], False)],
      "specs": [_sp("S0", [("c", 1)])]},
     {"kind": "synthetic", "label": "default-cycle-broken-by-specifier", "defaults": [("a", ["b"], False), ("b", ["a"], False)],
